@@ -9,25 +9,24 @@ def knownSite (f : String) : Bool :=
     (o.role != .closeDone && o.role != .other)
 
 /-- Finding class `hlsMuxerLockCycle` on the watchdog's report (one entry per leftover goroutine: its
-innermost frames, innermost first): the three goroutines of the cycle are there — a starting muxer
-inside `pathManager.AddReader`, `pathManager.run` inside `hls.Server.PathReady`, the HLS loop inside a
-`muxer.api…` query — no muxer is stuck in its own clean-up (`muxer.run` taking the mutex: a different
-defect), and the regenerated lock table still shows `muxer.runInner` holding the mutex across the
-request. -/
+innermost frames, innermost first).  All three parties of the cycle are there: the HLS loop inside a
+lock-taking muxer function, `pathManager.run` inside `hls.Server.PathReady/PathNotReady`, and a goroutine
+that holds the muxer mutex while it waits for the path manager or a path (a starting muxer inside
+`pathManager.AddReader`, or a session being closed under the mutex inside `path.RemoveReader`) — and the
+regenerated lock table still shows the hazard. -/
 def knownHLSCycle (chains : List String) : Bool :=
-  chains.any (·.startsWith "pathManager.AddReader<hls.muxer.runInner") &&
+  chains.any (fun c => c.startsWith "hls.muxer." && (c.splitOn "<").getD 1 "" == "hls.Server.run") &&
   chains.any (fun c => c.startsWith "hls.Server.PathReady<pathManager.doSetPathReady" ||
     c.startsWith "hls.Server.PathNotReady<pathManager.doSetPathNotReady") &&
-  chains.any (fun c => c.startsWith "hls.muxer.api" && (c.splitOn "<").contains "hls.Server.run") &&
-  !chains.any (fun c => c == "hls.muxer.run" || c.startsWith "hls.muxer.run<") &&
-  (lockAcrossRequest Gen.C40.lockFns).contains (Gen.C40.LF_hls_muxer_runInner, Gen.C40.MU_hls_muxer_mutex)
+  chains.any (fun c => c.startsWith "pathManager.AddReader<hls.muxer.runInner" ||
+    (c.startsWith "path." && (c.splitOn "<").contains "hls.session.close2")) &&
+  !(lockCycleHazards Gen.C40.lockFns Gen.C40.loopLockCalls).isEmpty
 
 /-- Finding class `hlsSessionCloseRace` on the frames of a panicking goroutine (innermost first): a muxer
 that is being destroyed closes a session (`session.close2`) which `muxer.addSession` has already
 registered but whose `reader` field `session.initialize` has not set yet: `stream.RemoveReader(nil)`. -/
 def knownSessionCrash (chain : List String) : Bool :=
-  chain.contains "stream.Reader.stop" && chain.contains "stream.Stream.RemoveReader" &&
-  chain.contains "hls.session.close2"
+  chain.contains "stream.Stream.RemoveReader" && chain.contains "hls.session.close2"
 
 /-- One op = one stress run of the real loops.  The model's answer is `done` (the theorems say every
 operation, including shutdown, completes) followed by the sampled blocking sites that the extracted
